@@ -682,9 +682,12 @@ func (ex *Exec) sprintf(args []Value) (Value, bool) {
 	rest, _ := args[1].(SliceV)
 	out := ex.emptyView()
 	ai := 0
+	var pieces []piece
+	shaped := true
 	lit := func(s string) {
 		if s != "" {
 			out = ex.concat(out, ex.constString(s))
+			pieces = append(pieces, piece{lit: s})
 		}
 	}
 	i := 0
@@ -730,6 +733,11 @@ func (ex *Exec) sprintf(args []Value) (Value, bool) {
 				return nil, false
 			}
 			out = ex.concat(out, a)
+			if _, isC := a.Len.ConstS(); isC && !strings.Contains(ex.viewString(a), "?") {
+				pieces = append(pieces, piece{lit: ex.viewString(a)})
+			} else {
+				shaped = false
+			}
 		case *T:
 			if (verb != 'd' && verb != 'v') || a.s.K != KBV {
 				return nil, false
@@ -786,6 +794,7 @@ func (ex *Exec) sprintf(args []Value) (Value, bool) {
 			o := ex.newByteObj(ex.intConst(int64(width)), int64(width), &layer{kind: lCells, cells: cells}, "sprintf")
 			n := ex.intConst(int64(width))
 			out = ex.concat(out, View{O: o, Off: ex.intConst(0), Len: n, Cap: n})
+			pieces = append(pieces, piece{num: v64, width: width})
 		default:
 			return nil, false
 		}
@@ -793,5 +802,48 @@ func (ex *Exec) sprintf(args []Value) (Value, bool) {
 	if ai != len(rest.A) {
 		return nil, false
 	}
+	if shaped && out.O != nil && len(pieces) > 0 {
+		// a fresh immutable object carrying its structure, so that comparisons of
+		// two such strings can be decided on the numbers (fixed-width zero-padded
+		// decimal rendering is injective and order-preserving)
+		no := ex.cloneRange(out.O, out.Off, out.Len, ex.maxLen(out), "sprintf")
+		no.pieces = pieces
+		no.readonly = true
+		z := ex.intConst(0)
+		out = View{O: no, Off: z, Len: out.Len, Cap: out.Len}
+	}
 	return out, true
 }
+
+// shapedCompare compares two whole strings produced by the Sprintf model with
+// the same structure piece by piece; ok=false when it does not apply.
+func (ex *Exec) shapedCompare(a, b View) (*T, bool) {
+	if a.O == nil || b.O == nil || a.O.pieces == nil || b.O.pieces == nil || len(a.O.pieces) != len(b.O.pieces) {
+		return nil, false
+	}
+	if !(a.Off.IsConst() && a.Off.c == 0 && b.Off.IsConst() && b.Off.c == 0 && a.Len == a.O.size && b.Len == b.O.size) {
+		return nil, false
+	}
+	c := ex.c
+	res := ex.intConst(0)
+	for i := len(a.O.pieces) - 1; i >= 0; i-- {
+		pa, pb := a.O.pieces[i], b.O.pieces[i]
+		if (pa.num == nil) != (pb.num == nil) || pa.width != pb.width {
+			return nil, false
+		}
+		if pa.num == nil {
+			if len(pa.lit) != len(pb.lit) {
+				return nil, false
+			}
+			if pa.lit < pb.lit {
+				res = ex.intConst(-1)
+			} else if pa.lit > pb.lit {
+				res = ex.intConst(1)
+			}
+			continue
+		}
+		res = c.Ite(c.Ult(pa.num, pb.num), ex.intConst(-1), c.Ite(c.Ult(pb.num, pa.num), ex.intConst(1), res))
+	}
+	return res, true
+}
+
